@@ -562,6 +562,15 @@ func (sc cdrScenario) alphabet(raw json.RawMessage, depth int) (ops []Op) {
 				cc.Seq = next(1)
 				c2.MUs = []MU{{RG: 1, Req: 10, Conts: []Cont{cc}}}
 				ops = append(ops, c2)
+				if u == 0 && depth >= 1 {
+					// a one-time event of the subscriber carrying usage of its own (its record is closed at once)
+					ev := c
+					ev.OTE, ev.Cons = "IEC", "smf-ev"
+					ce := cont(13, true)
+					ce.Seq = next(1)
+					ev.MUs = []MU{{RG: 1, Req: -1, Conts: []Cont{ce}}}
+					ops = append(ops, ev)
+				}
 			}
 		}
 	}
